@@ -1,6 +1,7 @@
 package rules
 
 import (
+	"go/types"
 	"fmt"
 	"strings"
 
@@ -89,6 +90,58 @@ func checkRecordFreshness(P *core.Program, R *core.Report, spec freshSpec) {
 	}
 	marked := persistsParams(P, spec.Store)
 	mayStore := P.Summary("mayCall:"+spec.Store, func(fn *ssa.Function) bool { return fn == storeFn })
+	// loader wrappers: functions whose first result is the loader's record (k.GetAmmPool → amm.GetPool)
+	loaders := map[*ssa.Function]bool{P.Fn(spec.Load): true}
+	for changed := true; changed; {
+		changed = false
+		for _, fn := range P.Funcs {
+			if loaders[fn] || fn.Signature.Results().Len() == 0 || core.IsGeneratedOrAux(P.File(fn.Pos())) {
+				continue
+			}
+			if !types.Identical(fn.Signature.Results().At(0).Type(), P.Fn(spec.Load).Signature.Results().At(0).Type()) {
+				continue
+			}
+			ff := P.Facts(fn)
+			all, any := true, false
+			for _, ex := range ff.Exits() {
+				ret, ok := ex.Instr.(*ssa.Return)
+				if !ok || ex.Kind == core.ExitError || len(ret.Results) == 0 {
+					continue
+				}
+				for _, o := range ff.Origins(ret.Results[0]) {
+					c, isCall := o.Val.(*ssa.Call)
+					isLd := false
+					if o.Kind == "call" && isCall && (o.Path == "" || o.Path == "#0") {
+						for _, t := range P.Callees(c) {
+							if loaders[t] {
+								isLd = true
+							}
+						}
+					}
+					if isLd {
+						any = true
+					} else if !(o.Kind == "call" && isCall && len(P.Callees(c)) == 0) { // zero-value constructors of other packages are fine
+						all = false
+					}
+				}
+			}
+			if all && any {
+				loaders[fn] = true
+				changed = true
+			}
+		}
+	}
+	isLoaderCall := func(c *ssa.Call) bool {
+		if calleeMatches(P, c, spec.Load) {
+			return true
+		}
+		for _, t := range P.Callees(c) {
+			if loaders[t] {
+				return true
+			}
+		}
+		return false
+	}
 	for _, fn := range P.Funcs {
 		if !spec.Subjects[fn] || core.IsGeneratedOrAux(P.File(fn.Pos())) || fn == storeFn {
 			continue
@@ -123,7 +176,7 @@ func checkRecordFreshness(P *core.Program, R *core.Report, spec freshSpec) {
 					case o.Kind == "param":
 					case o.Kind == "call":
 						ld, _ := o.Val.(*ssa.Call)
-						if ld == nil || !calleeMatches(P, ld, spec.Load) {
+						if ld == nil || !isLoaderCall(ld) {
 							continue // constructed / returned by another function
 						}
 						// loop: use → use without reloading
